@@ -69,6 +69,19 @@ def gen_policy(rng):
     return table, default
 
 
+def f20_applies(table, default, user, r):
+    """finding F20 is about one situation only: the parent path of the target carries the lower-case letter the method
+    needs (r for reads, w for writes) — the pre-lock check passes on it, the check on the resource itself fails — so that
+    an existing hidden resource answers 403 and a missing one 404.  Any other existence leak is not F20."""
+    letter = "r" if r["method"] in ("GET", "PROPFIND", "MULTIGET") else "w"
+    paths = [list(r["path"])] + ([list(r["dest"])] if r.get("dest") else [])
+    for p in paths:
+        parent = tuple(p[:-1])
+        if letter in table.get((user, parent), default):
+            return True
+    return False
+
+
 def set_policy(sim, table, default):
     sim.rights_table = dict(table)
     sim.rights_default = default
@@ -107,6 +120,17 @@ def run_policy(ctx, rng, pid):
         known = []
         for i in range(rng.randint(4, 14)):
             r = davsim.gen_request(rng, sim, known)
+            if extra and rng.random() < 0.3:
+                # probe exactly the names that exist in the twin only (inside subtrees the policy hides from this user)
+                x = rng.choice(extra)
+                tp = list(x["path"])
+                r = rng.choice([{"method": "GET", "path": tp, "as_collection": x["method"] != "PUT"},
+                                {"method": "PROPFIND", "path": tp, "as_collection": x["method"] != "PUT", "depth1": rng.random() < 0.5},
+                                {"method": "MULTIGET", "path": tp if x["method"] != "PUT" else tp[:-1], "hrefs": [tp], "book": False},
+                                {"method": "MULTIGET", "path": tp, "hrefs": [tp + ["a.ics"]], "book": False},
+                                {"method": "DELETE", "path": tp, "as_collection": x["method"] != "PUT"},
+                                {"method": "PROPPATCH", "path": tp, "as_collection": True, "set": [["D:displayname", "x"]], "remove": [],
+                                 "sets_type": False, "bad_body": False}])
             before = disk_snapshot(sim.app.folder)
             dump_before = sim.real_dump()
             obs, ans, diffs = sim.step(r, user)
@@ -168,10 +192,10 @@ def run_policy(ctx, rng, pid):
                 st1, hd1, text1 = sim.app.request(m1, path1, body1, login=(user + ":pw") if user else None, **env1)
                 if (st1, text1) != (st2, text2):
                     ctx.violation("the answer depends on data inside a subtree where the policy gives the user nothing "
-                                  "(status %s vs %s)" % (st1, st2), dict(case, twin_extra=extra), finding="F20" if {deny(st1), deny(st2)} == {403, 404} else None)
+                                  "(status %s vs %s)" % (st1, st2), dict(case, twin_extra=extra), finding="F20" if {deny(st1), deny(st2)} == {403, 404} and f20_applies(table, default, user, r) else None)
             elif st != st2:
                 ctx.violation("the outcome of a write depends on data inside a hidden subtree (status %s vs %s)" % (st, st2),
-                              dict(case, twin_extra=extra), finding="F20" if {deny(st), deny(st2)} <= {403, 404, 409, 412, 405} and st != st2 else None)
+                              dict(case, twin_extra=extra), finding="F20" if {deny(st), deny(st2)} <= {403, 404, 409, 412, 405} and st != st2 and f20_applies(table, default, user, r) else None)
             if diffs:
                 # anonymous: NOT_ALLOWED is answered 401, FORBIDDEN 403 - the model says 403 for both
                 if not user and len(diffs) == 1 and diffs[0].startswith("status 403 (model 403)"):
